@@ -126,4 +126,109 @@ theorem rows_iff (V : List String) (σ : Nat → ℝ) (x : List ℝ) (hn : V.Nod
           simp only [rel, hc2]
           constructor <;> intro h' <;> linarith
 
+theorem forall_filter_split {α : Type} (l : List α) (q : α → Bool) (P : α → Prop) :
+    (∀ c ∈ l, P c) ↔ (∀ c ∈ l.filter (fun c => !q c), P c) ∧ (∀ c ∈ l.filter q, P c) := by
+  constructor
+  · intro h
+    exact ⟨fun c hc => h c (List.mem_of_mem_filter hc), fun c hc => h c (List.mem_of_mem_filter hc)⟩
+  · rintro ⟨h1, h2⟩ c hc
+    by_cases hq : q c = true
+    · exact h2 c (List.mem_filter.mpr ⟨hc, hq⟩)
+    · exact h1 c (List.mem_filter.mpr ⟨hc, by simpa using hq⟩)
+
+theorem castRows_length (A : List (List Rat)) : (castRows A).length = A.length := by simp [castRows]
+theorem castVec_length (b : List Rat) : (castVec b).length = b.length := by simp [castVec]
+
+/-- feasibility for the extracted data = feasibility for the user's model -/
+theorem feasible_iff_user (p : LPProblem) (lp : Py.LPData) (σ : Nat → ℝ) (x : List ℝ)
+    (hn : p.names.Nodup)
+    (hbounds : lp.bounds = p.vars.map (fun v => (v.lb, v.ub)))
+    (hc : lp.c.length = p.names.length)
+    (hubl : lp.aub.length = lp.bub.length)
+    (hub : List.Forall₂ (RowOK p.names) (lp.aub.zip lp.bub) (p.constraints.filter fun c => !isEq c.2))
+    (heql : lp.aeq.length = lp.beq.length)
+    (heq : List.Forall₂ (RowOK p.names) (lp.aeq.zip lp.beq) (p.constraints.filter fun c => isEq c.2)) :
+    feasibleData (toLPP lp) x ↔ userFeasible p σ x := by
+  unfold feasibleData userFeasible
+  have hlen : (toLPP lp).c.length = p.names.length := by simp [toLPP, castVec, hc]
+  rw [hlen]
+  constructor
+  · rintro ⟨hx, h1, h2, h3⟩
+    refine ⟨hx, ?_, ?_⟩
+    · simpa [toLPP, hbounds] using h3
+    · rw [forall_filter_split p.constraints (fun c => isEq c.2)]
+      constructor
+      · have := (rows_iff p.names σ x hn hx false lp.aub lp.bub _ hubl hub
+          (by intro c hc'; have := (List.mem_filter.mp hc').2; simpa using this)).mp
+        apply this
+        simp only [Bool.false_eq_true, ite_false]
+        by_cases he : lp.aub.isEmpty
+        · have ha : lp.aub = [] := List.isEmpty_iff.mp he
+          have hb : lp.bub = [] := by
+            have : lp.bub.length = 0 := by rw [← hubl, ha]; rfl
+            exact List.length_eq_zero_iff.mp this
+          rw [ha, hb]; exact List.Forall₂.nil
+        · have hb : ¬ lp.bub.isEmpty := by
+            intro hb'
+            have : lp.bub = [] := List.isEmpty_iff.mp hb'
+            have h0 : lp.aub.length = 0 := by rw [hubl, this]; rfl
+            exact he (List.isEmpty_iff.mpr (List.length_eq_zero_iff.mp h0))
+          exact h1 _ _ (by simp [toLPP, he]) (by simp [toLPP, hb])
+      · have := (rows_iff p.names σ x hn hx true lp.aeq lp.beq _ heql heq
+          (by intro c hc'; exact (List.mem_filter.mp hc').2)).mp
+        apply this
+        simp only [ite_true]
+        by_cases he : lp.aeq.isEmpty
+        · have ha : lp.aeq = [] := List.isEmpty_iff.mp he
+          have hb : lp.beq = [] := by
+            have : lp.beq.length = 0 := by rw [← heql, ha]; rfl
+            exact List.length_eq_zero_iff.mp this
+          rw [ha, hb]; exact List.Forall₂.nil
+        · have hb : ¬ lp.beq.isEmpty := by
+            intro hb'
+            have : lp.beq = [] := List.isEmpty_iff.mp hb'
+            have h0 : lp.aeq.length = 0 := by rw [heql, this]; rfl
+            exact he (List.isEmpty_iff.mpr (List.length_eq_zero_iff.mp h0))
+          exact h2 _ _ (by simp [toLPP, he]) (by simp [toLPP, hb])
+  · rintro ⟨hx, hb, hcons⟩
+    rw [forall_filter_split p.constraints (fun c => isEq c.2)] at hcons
+    refine ⟨hx, ?_, ?_, ?_⟩
+    · intro A b hA hB
+      have := (rows_iff p.names σ x hn hx false lp.aub lp.bub _ hubl hub
+        (by intro c hc'; have := (List.mem_filter.mp hc').2; simpa using this)).mpr hcons.1
+      simp only [Bool.false_eq_true, ite_false] at this
+      by_cases he : lp.aub.isEmpty
+      · simp [toLPP, he] at hA
+      · have hb' : ¬ lp.bub.isEmpty := by
+          intro hb''
+          have : lp.bub = [] := List.isEmpty_iff.mp hb''
+          have h0 : lp.aub.length = 0 := by rw [hubl, this]; rfl
+          exact he (List.isEmpty_iff.mpr (List.length_eq_zero_iff.mp h0))
+        simp only [toLPP, he, hb', Bool.false_eq_true, ite_false, Option.some.injEq] at hA hB
+        rw [← hA, ← hB]; exact this
+    · intro A b hA hB
+      have := (rows_iff p.names σ x hn hx true lp.aeq lp.beq _ heql heq
+        (by intro c hc'; exact (List.mem_filter.mp hc').2)).mpr hcons.2
+      simp only [ite_true] at this
+      by_cases he : lp.aeq.isEmpty
+      · simp [toLPP, he] at hA
+      · have hb' : ¬ lp.beq.isEmpty := by
+          intro hb''
+          have : lp.beq = [] := List.isEmpty_iff.mp hb''
+          have h0 : lp.aeq.length = 0 := by rw [heql, this]; rfl
+          exact he (List.isEmpty_iff.mpr (List.length_eq_zero_iff.mp h0))
+        simp only [toLPP, he, hb', Bool.false_eq_true, ite_false, Option.some.injEq] at hA hB
+        rw [← hA, ← hB]; exact this
+    · simpa [toLPP, hbounds] using hb
+
+/-- objective of the data at `x` = the user's objective at the point assigning `x` to the variables -/
+theorem objective_eq_user (p : LPProblem) (lp : Py.LPData) (obj : Expr) (σ : Nat → ℝ) (x : List ℝ)
+    (hn : p.names.Nodup) (hx : x.length = p.names.length)
+    (hobj : ∀ (ρ : String → ℝ) (σ : Nat → ℝ), NumAlg.wsum lp.c (p.names.map ρ) + (lp.c0 : ℝ) = denote ρ σ obj) :
+    dot (toLPP lp).c x + (toLPP lp).c0 = denote (envOf p.names x) σ obj := by
+  have := hobj (envOf p.names x) σ
+  rw [map_envOf p.names x hn hx] at this
+  simp only [toLPP, dot_cast]
+  exact this
+
 end Optyx.LPE
